@@ -13,6 +13,9 @@ pub const DRAW_BUDGET: usize = 64;
 pub struct RngScript {
     pub cands: Vec<[u8; 32]>,
     pub filler: u64,
+    /// observe mode (C14-M3): the bytes of the real generator pass through unchanged and are
+    /// only recorded; such a call is not replayable bit-for-bit and is labelled so
+    pub real: bool,
 }
 
 impl RngScript {
@@ -28,9 +31,15 @@ impl RngScript {
         v
     }
     pub fn to_json(&self) -> Value {
+        if self.real {
+            return json!({"real": true});
+        }
         json!({"c": self.cands.iter().map(hex::encode).collect::<Vec<_>>(), "f": self.filler})
     }
     pub fn from_json(v: &Value) -> Option<RngScript> {
+        if v.get("real").and_then(|r| r.as_bool()) == Some(true) {
+            return Some(RngScript { cands: vec![], filler: 0, real: true });
+        }
         let mut cands = vec![];
         for c in v.get("c")?.as_array()? {
             let b = hex::decode(c.as_str()?).ok()?;
@@ -41,7 +50,7 @@ impl RngScript {
             a.copy_from_slice(&b);
             cands.push(a);
         }
-        Some(RngScript { cands, filler: v.get("f")?.as_u64()? })
+        Some(RngScript { cands, filler: v.get("f")?.as_u64()?, real: false })
     }
 }
 
@@ -130,7 +139,9 @@ pub fn run_lib<T>(script: &RngScript, f: impl FnOnce() -> T) -> (Outcome<T>, Rng
                 drop(s);
                 std::panic::panic_any(BudgetExceeded);
             }
-            let c = if s.next < s.script.cands.len() {
+            let c = if s.script.real {
+                *buf
+            } else if s.next < s.script.cands.len() {
                 let c = s.script.cands[s.next];
                 s.next += 1;
                 c
@@ -179,5 +190,5 @@ pub fn run_lib<T>(script: &RngScript, f: impl FnOnce() -> T) -> (Outcome<T>, Rng
 /// Library call that is not expected to draw randomness (a benign filler is installed anyway so
 /// that a refactor which adds blinding stays deterministic).
 pub fn run_lib_norng<T>(f: impl FnOnce() -> T) -> Outcome<T> {
-    run_lib(&RngScript { cands: vec![], filler: 0x0B5E55ED }, f).0
+    run_lib(&RngScript { cands: vec![], filler: 0x0B5E55ED, real: false }, f).0
 }
